@@ -107,6 +107,7 @@ Valid(s, v, side) ==
    ELSE /\ Compositions(s, v, side)
         /\ Has(s, "enum") => \E i \in DOMAIN s.enum : Eq(s.enum[i], v)
         /\ Has(s, "type") => TypeIs(s.type, v)
+        /\ Has(s, "types") => \E i \in DOMAIN s.types : TypeIs(s.types[i], v)      \* "type" written as a list: any of them
         /\ v.t = "num" => NumOK(s, v.q)
         /\ v.t = "str" => StrOK(s, v.cs)
         /\ v.t = "arr" => ArrOK(s, v.a, side)
